@@ -56,6 +56,7 @@ def run(ctx, impl_only=False):
         pairs.append((w(t), w(u)))
     pairs += FAM.rich_pairs(ctx, n // 4)
     pairs += C01.flat_dict_pairs(ctx, n // 2)      # the domain of C08_flat_dict_inverse
+    pairs += C01.nested_dict_pairs(ctx, n // 3)
     lines, metas = [], []
     grid = [(z, thr) for z in (False, True) for thr in (0, 0.33, 0.9)]
     for i, (t1, t2) in enumerate(pairs):
